@@ -51,6 +51,10 @@ func checkC11(c *Ctx) {
 	ruleNilableFields(c, "C11.f")
 	ruleNoNarrowing(c, "C11.g")
 	ruleDeliveredNumbers(c, "C11.h")
+	c.rule("C11.i", "the decoder un-reads a byte only directly after a successful byte read (bufio typestate; mustUnreadByte panics otherwise)", 9)
+	ruleUnreadTypestate(c, "C11.i")
+	c.rule("C11.j", "no allocation is sized by a number the peer announced", 4)
+	ruleNoWireSizedAlloc(c, "C11.j")
 }
 
 // ruleZeroFromWire: C11.b.
@@ -299,6 +303,62 @@ func ruleEnumerationBoundary(c *Ctx, rule string) {
 			}
 			c.check(guarded, rule, key, bo.Pos(), "the body leaves the loop when the variable reaches the bound, before the increment can wrap",
 				fmt.Sprintf("`for n := start; n <= stop; n++` over an unsigned %s with a non-constant bound: when stop is the maximum value n wraps to 0 and the loop never ends (enumerating a set that contains 4294967295 hangs and exhausts memory)", bt.Name()))
+		}
+	}
+	// (iii) positional accumulation n = n*K + digit in a loop: without a bound
+	// test inside the loop the accumulator wraps for long inputs and a check
+	// after the loop sees the wrapped value
+	for _, fn := range p.SrcFuncs("internal/imapnum", "", "internal/imapwire") {
+		for _, b := range fn.Blocks {
+			for _, i := range b.Instrs {
+				ph, ok := i.(*ssa.Phi)
+				if !ok {
+					continue
+				}
+				bt, ok := ph.Type().Underlying().(*types.Basic)
+				if !ok || bt.Info()&types.IsInteger == 0 {
+					continue
+				}
+				acc := false
+				var upd ssa.Value
+				for k, e := range ph.Edges {
+					if !b.Dominates(b.Preds[k]) {
+						continue
+					}
+					if add, ok := e.(*ssa.BinOp); ok && add.Op == token.ADD {
+						for _, side := range []ssa.Value{add.X, add.Y} {
+							if mul, ok := side.(*ssa.BinOp); ok && mul.Op == token.MUL && (mul.X == ssa.Value(ph) || mul.Y == ssa.Value(ph)) {
+								if _, isC := mul.X.(*ssa.Const); isC || func() bool { _, c2 := mul.Y.(*ssa.Const); return c2 }() {
+									acc, upd = true, add
+								}
+							}
+						}
+					}
+				}
+				if !acc {
+					continue
+				}
+				n++
+				// a comparison of the accumulator (or its update) with something, inside the loop
+				guarded := false
+				for _, blk := range fn.Blocks {
+					if !b.Dominates(blk) || !reaches2(blk, b) {
+						continue
+					}
+					for _, j := range blk.Instrs {
+						if cmp, ok := j.(*ssa.BinOp); ok {
+							switch cmp.Op {
+							case token.GTR, token.GEQ, token.LSS, token.LEQ:
+								if cmp.X == ssa.Value(ph) || cmp.Y == ssa.Value(ph) || cmp.X == upd || cmp.Y == upd {
+									guarded = true
+								}
+							}
+						}
+					}
+				}
+				c.check(guarded, rule, fmt.Sprintf("%s: accumulator %s = %s*K + digit", fnKey(fn), ph.Comment, ph.Comment), ph.Pos(), "bounded inside the loop",
+					fmt.Sprintf("the %s accumulator is multiplied and added in a loop with no bound test inside the loop: a long digit string wraps around and a range check after the loop accepts the wrapped value (e.g. 18446744073709551617 parsed as 1)", bt.Name()))
+			}
 		}
 	}
 	if n == 0 {
